@@ -234,6 +234,10 @@ def scenarios(tier, seed):
                            dict(n_steps=nst // 2, qr_every=4, sr_every=0, inject=0.0)))
                 sc.append((f"{pk}:{tk}:extreme-sr", dict(kind="hubbard", pk=pk, tk=tk, u=16.0, dt=1.0, u_1=2.0, poor=True),
                            dict(n_steps=nst // 2, qr_every=2, sr_every=7, inject=0.0)))
+    # complex trial orbitals and hopping (twisted boundary): overlap ratios are complex, the weights must stay real
+    for pk in ("cpmc", "cpmc_slow"):
+        sc.append((f"{pk}:uhf:twisted", dict(kind="hubbard", pk=pk, tk="uhf", u=4.0, dt=0.05, u_1=0.0, twist=0.45),
+                   dict(n_steps=nst // 2, qr_every=5, sr_every=10, inject=0.0)))
     return sc
 
 
@@ -273,7 +277,7 @@ def run(chk: Check):
             lat = lattices.one_dimensional_chain(4) if k % 2 else lattices.two_dimensional_grid(2, 2)
             sysd = runlevel.make_hubbard(np.random.default_rng(seed), lat, (2, 2) if k % 3 else (2, 1), bk["u"], bk["dt"],
                                          prop_kind=bk["pk"], trial_kind=bk["tk"], n_walkers=6, u_1=bk.get("u_1", 0.0),
-                                         poor_trial=bk.get("poor", False), proxied=False)
+                                         poor_trial=bk.get("poor", False), proxied=False, twist=bk.get("twist", 0.0))
             rule = "cpmc"
         try:
             steps = history(sysd, seed=seed, rule=rule, **hk)
